@@ -175,6 +175,12 @@ def diff_model(trace):
     return None
 
 
+def signals_end(t):
+    """does this `> cr.proc hasIn flushReq useIdone ilen olen` line (split into tokens) tell the library that the input has ended?
+    in == NULL, or the ~ilen mark on a block that is taken whole (empty, or offered without the idone clamp)"""
+    return t[2] != "1" or (t[3] == "1" and (t[5] == "0" or t[4] == "0"))
+
+
 def block_sizes(plan):
     """Internal block lengths of an exported plan, for schedule sizes around them."""
     bs = set()
